@@ -6,7 +6,7 @@ import StepupModel.P.Watch
   events on a workflow with the attached file rows `hexlabel:STATE,...`, the recorded glob matches and
   the paths some attached regex accepts; events `U|D|P:hexpath:duringBuild,...`.  Answer: the two
   sets after every event, `u=<sorted hex list>|d=<sorted hex list>` joined by `;`.
-* `c14 applied <nodes> <disk> <updated> <deleted> <paths>`: the hash results the watcher applies, the
+* `c14 applied <nodes> <disk> <updated> <deleted> <paths> <present>`: the hash results the watcher applies, the
   pruned `updated` set, and the results a restart applies (`hexpath:attached:STATE:hash` nodes,
   `hexpath:hash` disk, `~` = unknown / absent).
 -/
@@ -76,14 +76,16 @@ def handle : List String → Option String
       let s := recordChange t.view acc.1 e
       (s, acc.2 ++ [setsStr s])) ({}, [])
     pure (if outs.isEmpty then "-" else ";".intercalate outs)
-  | ["applied", nodes, disk, upd, del, paths] => do
+  | ["applied", nodes, disk, upd, del, paths, pres] => do
+    let pres := (← unhexList pres).map cps
+    let presentF : Str → Bool := fun p => pres.contains p
     let nodes ← (items nodes).mapM parseNode
     let disk ← (items disk).mapM parseDisk
     let nodeF : Str → Option FileRec := fun p => (nodes.find? (·.1 = p)).map (·.2)
     let diskF : Str → Option Nat := fun p => ((disk.find? (·.1 = p)).map (·.2)).join
     let s : Sets Str := { updated := (← unhexList upd).map cps, deleted := (← unhexList del).map cps }
     let paths := (← unhexList paths).map cps
-    pure s!"watch={appliedStr (watchApplied nodeF diskF s)} pruned={hexList ((sortStrs (prunedUpdated nodeF diskF s)).map ofCps)} deleted={hexList ((sortStrs (finalDeleted nodeF diskF s)).map ofCps)} restart={appliedStr (restartApplied paths nodeF diskF)}"
+    pure s!"watch={appliedStr (watchApplied nodeF diskF s)} pruned={hexList ((sortStrs (prunedUpdated nodeF diskF presentF s)).map ofCps)} deleted={hexList ((sortStrs (finalDeleted nodeF diskF presentF s)).map ofCps)} restart={appliedStr (restartApplied paths nodeF diskF)}"
   | _ => none
 
 end StepupModel.Drv.C14
